@@ -3,7 +3,10 @@
 import json, os, subprocess
 D = os.path.dirname(os.path.dirname(os.path.abspath(__file__)))
 props = [json.loads(l) for l in open(os.path.join(D, 'properties.jsonl'))]
-table = json.load(open(os.path.join(D, 'tools', 'props.json')))
+import glob
+table = {}
+for f in sorted(glob.glob(os.path.join(D, 'tools', 'props.d', 'C*.json'))):
+    table[os.path.basename(f)[:-5]] = json.load(open(f))
 fix_commits = subprocess.run(['git', '-C', '/repo', 'log', '--format=%h %s'], capture_output=True, text=True).stdout.splitlines()
 hook_commits = [l.split()[0] for l in fix_commits if l.split(' ', 1)[1].startswith('hook:')]
 checks, na = [], []
